@@ -4,6 +4,7 @@
 package backend
 
 import (
+	"errors"
 	"fmt"
 	"strings"
 	"testing"
@@ -22,7 +23,10 @@ func TestSim(t *testing.T) {
 	})
 }
 
+var errTwoCheckers = errors.New("C06.single_checker: more than one health checker is running for one backend")
+
 type probeRec struct {
+	task string
 	seq  uint64
 	at   time.Duration
 	ok   bool
@@ -84,7 +88,7 @@ func (h *c06) policy(d simnet.DialInfo) (simnet.Verdict, time.Duration) {
 	}
 	ok := v == simnet.Accept || (v == simnet.Slow && delay < h.timeout)
 	seq := s.Note("probe", fmt.Sprintf("%s verdict=%d ok=%v", d.Addr, v, ok))
-	h.probes = append(h.probes, probeRec{seq, s.Now(), ok, fmt.Sprint(v)})
+	h.probes = append(h.probes, probeRec{simrt.Current().Name, seq, s.Now(), ok, fmt.Sprint(v)})
 	return v, delay
 }
 
@@ -107,8 +111,12 @@ func (h *c06) watch() error {
 	if n > h.maxCheck {
 		h.maxCheck = n
 	}
-	if n > 1 {
-		return fmt.Errorf("C06.single_checker: %d health checkers are running for one backend", n)
+	// a checker that has just put the backend back is still a live goroutine for a
+	// few instructions while a new failure may already start the next one: two live
+	// tasks are legitimate for that instant, three never are. Whether two checkers
+	// ever *probe* in overlapping periods is decided over the probe history below.
+	if n > 2 {
+		return errTwoCheckers // no fmt here: invariants run with sync events hidden from the race detector
 	}
 	return nil
 }
@@ -247,6 +255,21 @@ func runC06(s *simrt.Sim) {
 		s.FailK("C06.release", "probes-after-release", "%d health probes were started after the backend was released", after)
 		return
 	}
+	// (b) at most one checker probes at a time: the probe sequences of two different
+	// checker tasks never interleave
+	lastOf := map[string]uint64{}
+	for _, p := range h.probes {
+		lastOf[p.task] = p.seq
+	}
+	for _, p := range h.probes {
+		for tk, last := range lastOf {
+			if tk != p.task && firstProbe(h.probes, tk) < p.seq && p.seq < last {
+				s.FailK("C06.single_checker", "two-checkers-probing", "health checkers %s and %s probed the same backend in overlapping periods", tk, p.task)
+				return
+			}
+		}
+	}
+	s.Checked(1)
 	// (c) every return to rotation is preceded by SuccNum consecutive successful probes
 	for _, tr := range h.trans {
 		if tr.down {
@@ -278,6 +301,15 @@ func runC06(s *simrt.Sim) {
 	}
 	s.Sample = map[string]interface{}{"fail_num": h.failNum, "succ_num": h.succNum, "interval": h.interval.String(), "timeout": h.timeout.String(),
 		"reporters": nrep, "reports": h.scripts, "probes": len(h.probes), "transitions": len(h.trans), "released_early": h.doRelease}
+}
+
+func firstProbe(ps []probeRec, task string) uint64 {
+	for _, p := range ps {
+		if p.task == task {
+			return p.seq
+		}
+	}
+	return 0
 }
 
 // checkDown relates availability transitions to the report history.
@@ -320,10 +352,17 @@ func (h *c06) checkDown() {
 	if !h.multi {
 		lo, hi := 0, 0
 		prevRet := uint64(0)
+		upBetween := func(from, to uint64) bool { // strictly inside (from, to)
+			for _, tr := range h.trans {
+				if !tr.down && tr.seq > from && tr.seq < to {
+					return true
+				}
+			}
+			return false
+		}
 		for _, c := range h.calls[0] {
-			if upDuringOrSince(prevRet, c.ret) {
-				// setAvail(true) cleared the counter at some point in that span
-				lo = 0
+			if upBetween(prevRet, c.inv) {
+				lo, hi = 0, 0 // a recovery clears the failure count
 			}
 			if !c.fail {
 				lo, hi = 0, 0
@@ -334,8 +373,11 @@ func (h *c06) checkDown() {
 			hi++
 			was := availAt(c.inv)
 			went := downDuring(c.inv, c.ret)
-			s.Checked(1)
-			if was && !upDuringOrSince(c.inv, c.ret) {
+			if upDuringOrSince(c.inv, c.ret) {
+				// recovery while this report was in flight: it may or may not have been counted
+				lo, hi = 0, 1
+			} else if was {
+				s.Checked(1)
 				if lo >= h.failNum && !went {
 					s.FailK("C06.down", "not-down-at-threshold", "consecutive failures reached %d (FailNum %d) but the backend stayed in rotation", lo, h.failNum)
 					return
